@@ -80,6 +80,15 @@ func dumpRV(sb *strings.Builder, v reflect.Value, seen map[unsafe.Pointer]int, d
 			dumpRV(sb, v.Index(i), seen, depth+1)
 			sb.WriteString(",")
 		}
+		if v.Kind() == reflect.Slice && v.Cap() > v.Len() {
+			// the spare capacity is memory of the value too (an in-place append by a callee shows here)
+			full := v.Slice(0, v.Cap())
+			sb.WriteString("|spare:")
+			for i := v.Len(); i < full.Len(); i++ {
+				dumpRV(sb, full.Index(i), seen, depth+1)
+				sb.WriteString(",")
+			}
+		}
 		sb.WriteString("]")
 	case reflect.Map:
 		if v.IsNil() {
@@ -199,4 +208,64 @@ func ConfirmRace(doc, defaultSchemaURI, instanceJSON string, applyDefaults bool)
 		return false, "race test timed out"
 	}
 	return strings.Contains(string(out), "DATA RACE"), string(out)
+}
+
+const raceBodyTemplate = `package jsonschema
+
+import (
+	"reflect"
+	"sync"
+	"testing"
+)
+
+var _ = reflect.TypeOf
+
+func TestVerifRace(t *testing.T) {
+	for round := 0; round < %d; round++ {
+		%s
+		var wg sync.WaitGroup
+		for g := 0; g < 8; g++ {
+			wg.Add(1)
+			go func() {
+				defer wg.Done()
+				%s
+			}()
+		}
+		wg.Wait()
+	}
+}
+`
+
+// ConfirmRaceBody runs `rounds` rounds of 8 goroutines executing body (in-package Go code)
+// after setup, under the race detector.
+func ConfirmRaceBody(rounds int, setup, body string) (bool, string) {
+	dir, err := os.MkdirTemp("", "verif-race-*")
+	if err != nil {
+		return false, err.Error()
+	}
+	defer os.RemoveAll(dir)
+	src := fmt.Sprintf(raceBodyTemplate, rounds, setup, body)
+	testFile := filepath.Join(dir, "zz_verif_race_test.go")
+	if err := os.WriteFile(testFile, []byte(src), 0o644); err != nil {
+		return false, err.Error()
+	}
+	ov, _ := json.Marshal(map[string]any{"Replace": map[string]string{"/repo/jsonschema/zz_verif_race_test.go": testFile}})
+	ovFile := filepath.Join(dir, "overlay.json")
+	os.WriteFile(ovFile, ov, 0o644)
+	cmd := exec.Command("go", "test", "-race", "-vet=off", "-count=1", "-overlay", ovFile, "-run", "TestVerifRace", "./jsonschema")
+	cmd.Dir = RepoDir
+	cmd.Env = append(os.Environ(), "GOFLAGS=-mod=mod", "GOPROXY=off", "GOTOOLCHAIN=local")
+	done := make(chan struct{})
+	var out []byte
+	go func() { out, _ = cmd.CombinedOutput(); close(done) }()
+	select {
+	case <-done:
+	case <-time.After(5 * time.Minute):
+		if cmd.Process != nil {
+			cmd.Process.Kill()
+		}
+		return false, "race test timed out"
+	}
+	o := string(out)
+	return strings.Contains(o, "DATA RACE") || strings.Contains(o, "concurrent map"), o
 }
